@@ -50,9 +50,10 @@ RENAMERS = {
 OP_WEIGHTS = {
     "new_box": 3, "drop_box": 1, "setitem": 8, "share": 4, "delitem": 2, "copy": 5, "shallow": 4, "rename": 4,
     "keep": 3, "remove": 3, "lay": 6, "clip": 4, "prepend": 3, "merge": 4, "or": 2, "item_op": 8,
-    "export": 12, "import": 10, "slate": 7,
+    "export": 12, "import": 10, "slate": 5, "slate_new": 4, "slate_to_box": 5, "slate_rescale": 3, "slate_copy": 2,
 }
-MUTATING = {"setitem", "share", "delitem", "rename", "keep", "remove", "lay", "clip", "prepend", "merge", "item_op", "export"}
+MUTATING = {"setitem", "share", "delitem", "rename", "keep", "remove", "lay", "clip", "prepend", "merge", "item_op", "export",
+            "slate_rescale"}
 
 FAULT_KINDS = ("open_enoent", "open_eacces", "open_emfile", "open_enospc", "write_enospc", "write_eio",
                "read_eio", "close_eio", "crash")
@@ -125,6 +126,7 @@ class DataboxWorld(World):
         self.snaps = {}        # id(series) -> snapshot
         self.bind = {}         # handle -> {name: ("s", id) | ("v", value)}
         self.disk = {}         # path -> ExportRecord | "torn"
+        self.slates = {}       # handle -> [real Dataslate, {name: (freq, nv, lo, array n x nv)}, owner]
         self.counter = 0
         self.seq = 0
         self.last_fault_seq = -1
@@ -139,7 +141,7 @@ class DataboxWorld(World):
 
     def step_handles(self, step):
         a = step.get("args", {})
-        hs = [a[k] for k in ("box", "other", "src_box") if isinstance(a.get(k), str)]
+        hs = [a[k] for k in ("box", "other", "src_box", "d") if isinstance(a.get(k), str)]
         hs.extend(step.get("out", []) or [])
         return tuple(hs)
 
@@ -147,7 +149,7 @@ class DataboxWorld(World):
         outs = set(step.get("out", []) or [])
         a = step.get("args", {})
         for h in self.step_handles(step):
-            if h not in outs and h not in self.boxes:
+            if h not in outs and h not in self.boxes and h not in self.slates:
                 return False
         op = step["op"]
         if op in ("item_op", "delitem") and a["name"] not in self.boxes[a["box"]]:
@@ -158,6 +160,7 @@ class DataboxWorld(World):
 
     def retire(self, handles):
         for h in handles:
+            self.slates.pop(h, None)
             self.boxes.pop(h, None)
             self.owner.pop(h, None)
             self.bind.pop(h, None)
@@ -292,6 +295,8 @@ class DataboxWorld(World):
         return {"op": "new_box", "actor": actor, "out": [self._name()], "args": {"items": items}}
 
     def _gen_drop_box(self, actor, rng, val, flt):
+        if self.slates and rng.random() < 0.25:
+            return {"op": "drop_box", "args": {"box": rng.choice(sorted(self.slates))}}
         if len(self.boxes) <= 2:
             return None
         return {"op": "drop_box", "args": {"box": rng.choice(sorted(self.boxes))}}
@@ -458,7 +463,7 @@ class DataboxWorld(World):
         m = self.heap[self.bind[b][n][1]][1]
         f = m.freq if m.lo is not None else rng.choice(self.cfg["freqs"])
         t = (m.lo if m.lo is not None else self.cfg["bases"][f]) + rng.randint(-3, max(m.n, 1) + 2)
-        kind = rng.choice(["set", "set", "shift", "clip", "abs", "nvar", "describe"])
+        kind = rng.choice(["set", "set", "shift", "clip", "abs", "nvar", "describe", "replace_where", "replace_where"])
         args = {"box": b, "name": n, "kind": kind, "freq": f, "t": t, "v": self._rand_value(val),
                 "by": rng.choice([-2, -1, 1, 2]), "n": rng.randint(0, 4), "num": rng.randint(1, 3),
                 "desc": rng.choice(DESC_POOL[:-1])}
@@ -566,6 +571,40 @@ class DataboxWorld(World):
             "fallbacks": vals() if rng.random() < 0.4 else None,
             "overwrites": vals() if rng.random() < 0.3 else None}}
 
+    def _gen_slate_new(self, actor, rng, val, flt):
+        if len(self.slates) >= 2:
+            return None
+        step = self._gen_slate(actor, rng, val, flt)
+        if step is None:
+            return None
+        step["op"] = "slate_new"
+        step["out"] = [self._name("d")]
+        if rng.random() < 0.5:
+            step["args"]["num_variants"] = 1
+        return step
+
+    def _pick_slate(self, rng):
+        c = sorted(self.slates)
+        return rng.choice(c) if c else None
+
+    def _gen_slate_to_box(self, actor, rng, val, flt):
+        d = self._pick_slate(rng)
+        if d is None:
+            return None
+        return {"op": "slate_to_box", "out": [self._name()], "args": {"d": d}}
+
+    def _gen_slate_rescale(self, actor, rng, val, flt):
+        d = self._pick_slate(rng)
+        if d is None:
+            return None
+        return {"op": "slate_rescale", "args": {"d": d, "factor": rng.choice([2.0, 0.5, -1.0, 10.0])}}
+
+    def _gen_slate_copy(self, actor, rng, val, flt):
+        d = self._pick_slate(rng)
+        if d is None or len(self.slates) >= 3:
+            return None
+        return {"op": "slate_copy", "out": [self._name("d")], "args": {"d": d, "how": rng.choice(["copy", "copy", "nan_copy"])}}
+
     # -- application ------------------------------------------------------------------------------
     def _apply(self, step):
         op = step["op"]
@@ -602,6 +641,8 @@ class DataboxWorld(World):
                 raise Violation("isolation", opname, pred, "", f"series {owners} is not selected by the operation but changed: {'/'.join(what)}")
 
     def _check_bindings_unchanged(self, opname, pred, exclude=()):
+        if self.slates and not opname.startswith("slate_"):
+            self._check_slates(opname)
         for h, box in self.boxes.items():
             if h in exclude:
                 continue
@@ -1054,6 +1095,15 @@ class DataboxWorld(World):
         elif kind == "nvar":
             e = sm.t_nvar(m, a["num"])
             thunk = lambda: box[n].alter_num_variants(a["num"])
+        elif kind == "replace_where":
+            v = np.nan if a["v"] is None else a["v"]
+
+            def f(x):
+                x = x.copy()
+                x[x > 1.0] = v
+                return x
+            e = sm.t_rowwise(m, f)
+            thunk = lambda: box[n].replace_where(lambda x: x > 1.0, v)
         else:
             e = Exp(m.freq, m.nv, m.cells, desc=a["desc"])
             thunk = lambda: box[n].set_description(a["desc"])
@@ -1169,6 +1219,8 @@ class DataboxWorld(World):
                 self.boxes.pop(b, None)
                 self.owner.pop(b, None)
                 self.bind.pop(b, None)
+            for dname in [x for x, v in self.slates.items() if v[2] == actor]:
+                self.slates.pop(dname, None)
             self._check_heap_after_retire("export", pred)
             self._rederive()
             return "crashed"
@@ -1290,6 +1342,34 @@ class DataboxWorld(World):
 
     # -- dataslate ------------------------------------------------------------------------------------
     def _do_slate(self, step, a):
+        prep = self._slate_prepare(a)
+        if prep is None:
+            return "skipped"
+        box, names, span, want, kw = prep
+        pred = ""
+        holder = {}
+
+        def thunk():
+            ds = ir.Dataslate.from_databox(box, list(names), span, **kw)
+            holder["ds"] = ds
+            return ds.to_databox()
+        status, r, _ = self._run("slate", pred, thunk)
+        self._crash_guard("slate", pred, status, r)
+        self._expect_box("slate", pred, r, want, what="round-tripped")
+        ds = holder["ds"]
+        for nm in r.keys():
+            for v in ds._variants:
+                if np.shares_memory(v.data, r[nm].data):
+                    self.probes["slate_result_views_slate"] += 1
+        self._check_heap("slate", pred)
+        self._check_bindings_unchanged("slate", pred)
+        out = step["out"][0]
+        self.boxes[out] = r
+        self.owner[out] = step.get("actor", "a0")
+        self._rederive()
+        return "ok"
+
+    def _slate_prepare(self, a):
         h = a["box"]
         box = self.boxes[h]
         bind = self.bind[h]
@@ -1300,7 +1380,7 @@ class DataboxWorld(World):
             if x and x[0] == "s":
                 m = self.heap[x[1]][1]
                 if m.lo is not None and m.freq != f:
-                    return "skipped"
+                    return None
         span = ir.Span(P(f, lo), P(f, lo + n - 1))
 
         def pick(v, k):
@@ -1334,27 +1414,96 @@ class DataboxWorld(World):
             kw["fallbacks"] = {k: (list(v) if isinstance(v, list) else v) for k, v in a["fallbacks"].items()}
         if a["overwrites"]:
             kw["overwrites"] = {k: (list(v) if isinstance(v, list) else v) for k, v in a["overwrites"].items()}
-        pred = ""
-        holder = {}
+        return box, names, span, want, kw
 
-        def thunk():
-            ds = ir.Dataslate.from_databox(box, list(names), span, **kw)
-            holder["ds"] = ds
-            return ds.to_databox()
-        status, r, _ = self._run("slate", pred, thunk)
-        self._crash_guard("slate", pred, status, r)
-        self._expect_box("slate", pred, r, want, what="round-tripped")
-        ds = holder["ds"]
-        for nm in r.keys():
-            for v in ds._variants:
-                if np.shares_memory(v.data, r[nm].data):
-                    self.probes["slate_result_views_slate"] += 1
-        self._check_heap("slate", pred)
-        self._check_bindings_unchanged("slate", pred)
+    # live dataslates: several databoxes taken from one slate, the slate mutated in between -------------
+    def _do_slate_new(self, step, a):
+        prep = self._slate_prepare(a)
+        if prep is None:
+            return "skipped"
+        box, names, span, want, kw = prep
+        status, r, _ = self._run("slate_new", "", lambda: ir.Dataslate.from_databox(box, list(names), span, **kw))
+        self._crash_guard("slate_new", "", status, r)
+        self._check_heap("slate_new", "")
+        self._check_bindings_unchanged("slate_new", "")
+        for v in r._variants:
+            for i, (real, _) in self.heap.items():
+                if np.shares_memory(v.data, real.data):
+                    raise Violation("alias", "slate_new", "", "", "the dataslate shares a buffer with a series of the source databox")
+        # remember plain arrays: name -> (freq, nv, lo, n x nv array)
+        exp = {}
+        for nm, w in want.items():
+            e = w[1]
+            lo, n, nv = a["a"], a["n"], a["num_variants"]
+            arr = np.full((n, nv), np.nan)
+            for t, v in e.cells.items():
+                arr[t - lo] = v
+            exp[nm] = [a["freq"], nv, lo, arr]
+        self.slates[step["out"][0]] = [r, exp, step.get("actor", "a0")]
+        self.probes["live_dataslate_created"] += 1
+        return "ok"
+
+    def _slate_want(self, exp):
+        want = {}
+        for nm, (f, nv, lo, arr) in exp.items():
+            want[nm] = ("s", Exp(f, nv, {lo + i: arr[i] for i in range(arr.shape[0])}), "fresh")
+        return want
+
+    def _check_slates(self, opname):
+        """Every live dataslate still holds what the model says (its arrays are nobody else's to change)."""
+        for d, (real, exp, _) in self.slates.items():
+            names = list(real.names)
+            for nm, (f, nv, lo, arr) in exp.items():
+                row = names.index(nm)
+                got = np.column_stack([v.data[row, :] for v in real._variants])
+                if got.shape != arr.shape or not np.array_equal(got, arr, equal_nan=True):
+                    raise Violation("isolation", opname, "", "", f"the values held by live dataslate {d} for {nm!r} changed although the operation was not applied to it")
+
+    def _do_slate_to_box(self, step, a):
+        d = a["d"]
+        real, exp, _ = self.slates[d]
+        status, r, _ = self._run("slate_to_box", "", lambda: real.to_databox())
+        self._crash_guard("slate_to_box", "", status, r)
+        self._expect_box("slate_to_box", "", r, self._slate_want(exp), what="round-tripped")
+        self._check_heap("slate_to_box", "")
+        self._check_bindings_unchanged("slate_to_box", "")
+        self._check_slates("slate_to_box")
         out = step["out"][0]
         self.boxes[out] = r
         self.owner[out] = step.get("actor", "a0")
         self._rederive()
+        self.probes["databox_taken_from_live_dataslate"] += 1
+        return "ok"
+
+    def _do_slate_rescale(self, step, a):
+        d = a["d"]
+        real, exp, _ = self.slates[d]
+        status, r, _ = self._run("slate_rescale", "", lambda: real.rescale_data(a["factor"]))
+        self._crash_guard("slate_rescale", "", status, r)
+        for nm in exp:
+            exp[nm][3] = exp[nm][3] * a["factor"]
+        # databoxes taken from the slate earlier, the source databox and every other slate are untouched
+        self._check_heap("slate_rescale", "")
+        self._check_bindings_unchanged("slate_rescale", "")
+        self._check_slates("slate_rescale")
+        return "ok"
+
+    def _do_slate_copy(self, step, a):
+        d = a["d"]
+        real, exp, owner = self.slates[d]
+        how = a["how"]
+        status, r, _ = self._run("slate_" + how, "", lambda: getattr(real, how)())
+        self._crash_guard("slate_" + how, "", status, r)
+        for v in r._variants:
+            for w in real._variants:
+                if np.shares_memory(v.data, w.data):
+                    raise Violation("alias", "slate_" + how, "", "", f"Dataslate.{how}() shares a data buffer with the original")
+        new_exp = {}
+        for nm, (f, nv, lo, arr) in exp.items():
+            new_exp[nm] = [f, nv, lo, arr.copy() if how == "copy" else np.full(arr.shape, np.nan)]
+        self.slates[step["out"][0]] = [r, new_exp, step.get("actor", "a0")]
+        self._check_heap("slate_" + how, "")
+        self._check_slates("slate_" + how)
         return "ok"
 
     # -- end of run: durability and bounded recovery ---------------------------------------------
